@@ -46,6 +46,10 @@ def adversarial_specs():
     out.append(raw(2, S.objective("singular", 2), [{"a": [1.0, -1.0], "b": 0.0, "lb": 0.0, "ub": 0.0}], [N, N], [I, I], [0.3, -0.7], "singular_hess"))
     # all variables fixed
     out.append(raw(2, S.objective("cubic", 2), [{"a": [1.0, 1.0], "b": 0.0, "lb": N, "ub": 1.0}], [0.5, -0.25], [0.5, -0.25], [0.5, -0.25], "all_fixed"))
+    # separable: the violated constraint only involves a variable that is absent from the objective
+    out.append(raw(3, {"H": [[2.0, 0.0, 0.0], [0.0, 2.0, 0.0], [0.0, 0.0, 0.0]], "g": [-2.0, 4.0, 0.0]},
+                   [{"Q": [[0.0, 0.0, 0.0], [0.0, 0.0, 0.0], [0.0, 0.0, 2.0]], "a": [0.0, 0.0, 1.0], "b": 0.0, "lb": 2.0, "ub": 2.0}],
+                   [N, N, N], [I, I, I], [0.0, 0.0, 0.0], "separable_constraint"))
     # one variable, unconstrained quartic (flat minimum)
     out.append(raw(1, S.objective("quartic", 1), [], [N], [I], [2.0], "quartic_1d"))
     return out
@@ -71,6 +75,15 @@ def small_jacobian_specs():
     for x0 in ([0.5, 0.5 + 1e-6], [0.3, 0.7000004], [2.0, -3.0]):
         out.append(raw(2, {"H": [[2.0, 0.0], [0.0, 1.0]], "g": [-1.0, 0.5]}, [{"a": [0.05, 0.05], "b": -0.05, "lb": 0.0, "ub": 0.0}],
                        [N, N], [I, I], x0, f"small_jacobian|{x0}"))
+    return out
+
+
+def exact_feasibility_specs():
+    """The only row becomes EXACTLY satisfied when a variable is clipped onto its bound (internal c == 0.0), after an infeasible phase."""
+    I, N = "inf", "-inf"
+    out = []
+    for x0 in ([-0.5, 0.0], [-0.25, 1.0]):
+        out.append(raw(2, S.objective("qdiag", 2), [{"a": [1.0, 0.0], "b": 0.0, "lb": 0.75, "ub": 0.75}], [-0.5, -0.75], [0.75, 1.25], x0, f"exact_feasible_at_bound|{x0}"))
     return out
 
 
